@@ -231,6 +231,8 @@ func runC19(e *Engine, r *Report) {
 	ruleTermInMemFirst(e, r)
 	ruleAppliedPair(e, r)
 	ruleAppendSetsRange(e, r)
+	ruleUpdateCarriesEntriesToSave(e, r)
+	ruleFirstIndexSnapshotFirst(e, r)
 }
 
 // blockReaches: is b reachable from a (a != b) in the CFG?
